@@ -29,12 +29,22 @@ func genC05(t *rapid.T) ModelCase {
 	a := GenApp(t, o)
 	modelFriendly(a)
 	mode := modelModes[uniformN(t, len(modelModes), "mode")]
-	return ModelCase{App: a, Inputs: genGuidedHistory(t, a, 14, mode.Kind == "persist"), Mode: mode}
+	c := ModelCase{App: a, Mode: mode}
+	if mode.Kind == "persist" && chancePct(t, 35, "reuse") {
+		// a server that keeps one flushing persister: another session has been there before
+		c.Mode.Reuse = "flush"
+		c.Prior = genGuidedHistory(t, a, 8, true)
+	}
+	c.Inputs = genGuidedHistory(t, a, 14, mode.PerRequest())
+	return c
 }
 
 func checkC05(c ModelCase) (o Outcome) {
 	asp := diffAspects{position: true, calls: true, cache: true, output: true, cont: true}
-	v, f, discard := modelDiff(c.App, c.Inputs, c.Mode, asp, nil)
+	v, f, discard := modelDiff(c.App, c.Inputs, c.Mode, asp, &diffHooks{prior: c.Prior})
+	if c.Mode.Reuse != "" {
+		o.class("reused-flushing-persister")
+	}
 	o.Viol, o.Discard = v, discard
 	// a result exactly at / one over its limit somewhere in the scripts?
 	boundary := false
@@ -69,6 +79,9 @@ func checkC05(c ModelCase) (o Outcome) {
 	}
 	return
 }
+
+// (the operator steps of these checks reach into the store or the live engine: the modes they know)
+var c06Modes = []app.Mode{{Kind: "long"}, {Kind: "long"}, {Kind: "persist", Backend: "mem"}}
 
 var c06Opts = GenOpts{MaxNodes: 4, MultiHalt: true, Flags: true, ReservedFl: true, EchoInput: true, NoEndNodes: true, Errors: true, RelCatch: true, PostCroak: true}
 
@@ -133,7 +146,7 @@ func genC06(t *rapid.T) ModelCase {
 		a.Cfg.FlagCount = 3
 	}
 	modelFriendly(a)
-	mode := modelModes[uniformN(t, len(modelModes), "mode")]
+	mode := c06Modes[uniformN(t, len(c06Modes), "mode")]
 	c := ModelCase{App: a, Inputs: genGuidedHistory(t, a, 12, mode.Kind == "persist"), Mode: mode}
 	// keep going after a TERMINATE: a few more requests, then the operator clears it
 	extra := rapid.IntRange(0, 4).Draw(t, "extra")
@@ -397,7 +410,7 @@ func genC06Tamper(t *rapid.T) C06Tamper {
 			}
 		}
 	}
-	return C06Tamper{App: a, Inputs: toBS(GenHistory(t, a, HistOpts{MaxLen: 10, Junk: true})), Mode: modelModes[uniformN(t, len(modelModes), "mode")]}
+	return C06Tamper{App: a, Inputs: toBS(GenHistory(t, a, HistOpts{MaxLen: 10, Junk: true})), Mode: c06Modes[uniformN(t, len(c06Modes), "mode")]}
 }
 
 func checkC06Tamper(c C06Tamper) (o Outcome) {
